@@ -164,6 +164,22 @@ def g_commute(ctx, rng, i):
     qc = g.PointCollection(np.stack([p.array for p in (P[1], P[2], P[3])]))
     rec("commute.join", "t*join(collections)", t * g.join(pc, qc), g.join(t * pc, t * qc), [t, pc, qc])
 
+    # a large collection of transformations with two collection axes (the batched inverse kernels) on single objects
+    if i % 6 == 0:
+        ms = np.stack([c06._rand_matrix(rng, n, j % 4) for j in range(64)]).astype(float).reshape(8, 8, n, n)
+        tb = g.TransformationCollection(ms)
+        cb = float(np.max(np.linalg.cond(ms)))
+        if cb < 1e3:
+            # (operands as collections of the same shape: a transformation collection on a single object is open finding F32 of C04)
+            A8, B8 = (g.PointCollection(np.broadcast_to(np.asarray(x.array), (8, 8, n)).copy()) for x in (P[0], P[1]))
+            lhs, rhs = tb * g.join(A8, B8), g.join(tb * A8, tb * B8)
+            ok, why = _proj_same(lhs, rhs, 1e-9 * cb ** 2)
+            ctx.judge("commute.join", ok, [tb, P[0], P[1]], what=f"(8,8) transformations: t*join(p,q) vs join(t*p,t*q): {why}", op="t*join (collection of transformations)", nontrivial=True,
+                      feat={"dim": dim, "tkind": "batch"})
+            inc = np.asarray(lhs.contains(tb * A8))
+            ctx.judge("incidence", bool(np.all(inc)), [tb, P[0], P[1]], what=f"(8,8) transformations: t*join(p,q) contains t*p at {int(inc.sum())} of {inc.size} positions",
+                      op="contains (collection of transformations)", nontrivial=True, feat={"dim": dim, "tkind": "batch"})
+
     # incidence: contains answers are preserved (incident and non-incident configurations)
     def same_bool(monitor, what, a, b, ops):
         ctx.judge(monitor, bool(np.array_equal(np.asarray(a), np.asarray(b))), ops, what=f"{what}: {a!r} vs {b!r}", op=what, nontrivial=nt, feat={"dim": dim, "tkind": kind})
